@@ -316,3 +316,19 @@ def check_timeout_passthrough(ck, rid: str, funcs, what='timeout'):
             n_ob += 1
             ck.ob(rid, f, (f.node.lineno, f'{f.qualname}({p})'), not probs, '; '.join(sorted(set(probs))) if probs else f'`{p}` reaches its uses as given; a default replaces `None` only')
     return n_ob
+
+
+def iterates_all_of(it, what: str) -> bool:
+    """does a `for … in <it>` visit every element of the container `what` (dotted)?  `what`, `list(what)`, `tuple(what)`,
+    `what[:]`, `reversed(what)`, `sorted(what, …)`, `what.copy()`, `enumerate(…of those…)`"""
+    if dotted(it) == what:
+        return True
+    if isinstance(it, ast.Subscript) and dotted(it.value) == what and isinstance(it.slice, ast.Slice) and it.slice.lower is None and it.slice.upper is None and it.slice.step is None:
+        return True
+    if isinstance(it, ast.Call):
+        d = dotted(it.func) or ''
+        if d in ('list', 'tuple', 'reversed', 'sorted', 'enumerate', 'iter', 'set') and it.args:
+            return iterates_all_of(it.args[0], what)
+        if isinstance(it.func, ast.Attribute) and it.func.attr == 'copy' and not it.args:
+            return dotted(it.func.value) == what
+    return False
